@@ -33,6 +33,7 @@ class Runner:
         self.ctx = ctx
         self.terms: list[str] = []
         self.meta: list[tuple[dict, str]] = []   # (case, kind)
+        self.weight: list[float] = []
         self.direct_fail: list[tuple[dict, dict]] = []
         self.engine_s = 0.0
 
@@ -52,7 +53,7 @@ class Runner:
             self.direct_fail.append((case, {"rows": rows[:50], "why": why}))
             return
         if full is None:
-            full = n <= 300
+            full = n <= 200 or case["family"].startswith("union") and n <= 800
         spec = X.oracle(case)
         ncomp = len(set(spec.values()))
         nontrivial = n >= 3 and 1 <= ncomp < n and len(case["edges"]) >= 2
@@ -71,6 +72,7 @@ class Runner:
             ctx.hist("iterations", iters if iters < 10 else f"{iters // 10 * 10}+")
         self.terms.append(X.coq_final_term(case, impl, full, iters if full else None))
         self.meta.append((case, "final"))
+        self.weight.append(float(n) * n * ((iters or 3) if full else 0.02) + len(self.terms[-1]) / 50)
         if trace and n <= 60:
             try:
                 tr = X.canonical_trace(case, cap)
@@ -80,6 +82,7 @@ class Runner:
                 return
             self.terms.append(X.coq_trace_term(case, tr))
             self.meta.append((case, "trace"))
+            self.weight.append(float(n) * n * len(tr[2]) + len(self.terms[-1]) / 50)
 
 
 def generate(ctx: Ctx, R: Runner):
@@ -133,10 +136,10 @@ def generate(ctx: Ctx, R: Runner):
                 if case is not None:
                     R.add(case, trace=True)
     # long chains (iteration-count maximisers), thresholds that do not cut the chain
-    sizes = [(89, "sqlite"), (144, "duckdb"), (144, "sqlite")] if quick else \
+    sizes = [(89, "sqlite"), (89, "duckdb")] if quick else \
         [(89, "sqlite"), (144, "duckdb"), (233, "sqlite"), (300, "sqlite"), (300, "duckdb")]
     for fam in ("path_bitrev", "path_zigzag", "path_zigzag_min_last", "path_random", "binary_tree"):
-        for n, backend in sizes:
+        for n, backend in sizes + ([(144, "sqlite")] if quick and fam in ("path_bitrev", "path_zigzag_min_last") else []):
             idkind = rng.choice(["int", "str"])
             thr = rng.choice([None, ["p", 768], ["w", 1]])
             R.add(X.build_case(rng, fam, n, "standalone", backend, idkind, None, thr=thr, cut_rate=0.0),
@@ -209,7 +212,18 @@ def run(ctx: Ctx):
                       X.features_of(small))
         reported += 1
     ctx.obligation("implementation output is a function on the node table for every case", not R.direct_fail)
-    bad, errs = ctx.eval_cases("C05_x", X.HEADER, R.terms, "run_any", shard=60, timeout=1500)
+    # spread the expensive cases over the shards (shards are evaluated in parallel)
+    N = len(R.terms)
+    S = max(1, min(16, (N + 59) // 60))
+    sz = (N + S - 1) // S
+    order = sorted(range(N), key=lambda i: -R.weight[i])
+    slots = [None] * (S * sz)
+    for pos, i in enumerate(order):
+        slots[(pos % S) * sz + pos // S] = i
+    PAD = "(mkF ([], [], None, [], false, None))"
+    bad_slots, errs = ctx.eval_cases("C05_x", X.HEADER, [PAD if i is None else R.terms[i] for i in slots],
+                                     "run_any", shard=sz, timeout=1500)
+    bad = sorted(slots[j] for j in bad_slots if slots[j] is not None)
     for e in errs:
         ctx.log(e[:1500])
     ctx.obligations += len(R.terms)
